@@ -59,7 +59,7 @@ func init() {
 			"slice ending exactly at the end of the mapping before a PROT_NONE page, zero-length slice of a non-empty array; DST lengths on both sides of 255/256; valid, rejected and panicking (empty DST) calls; " +
 			"pointer arguments of Add/Subtract/Equal/Set/Multiply and of the scalar binary operations, Pow, LessOrEqual, CSelect. Monitors: (trap) the arguments live in mmap'd pages made PROT_READ for the duration of the call, any store raises a fault whose address is mapped back to (object, offset, writer frame); " +
 			"(canary) the same call on ordinary memory with the whole backing array (prefix gap, payload, spare capacity, suffix gap) compared byte for byte afterwards; (fresh) every slice-returning function called twice: address ranges over full capacity must not overlap each other nor the receiver, " +
-			"and scribbling over b[:cap(b)] must change neither the source value nor the next result; (retain) an object decoded from a caller buffer must not keep that buffer: later encodings may not overlap it, overwriting the buffer must not change the object, and writing to an encoding must not change the buffer. Decoder inputs include every length 0..140 (ASCII digits and bytes) and the textual (ASCII hex, quoted, 0x-prefixed) forms of valid encodings. Scalar arguments are also passed with non-reduced limbs (n+k written through the exported field S). non-trivial = all; distinct by the whole case.",
+			"and scribbling over b[:cap(b)] must change neither the source value nor the next result; (retain) an object decoded from a caller buffer must not keep that buffer: later encodings may not overlap it, overwriting the buffer must not change the object, and writing to an encoding must not change the buffer. Decoder inputs include every length 0..140 (ASCII digits and bytes) and the textual (ASCII hex, quoted, 0x-prefixed) forms of valid encodings. Scalar arguments are also passed with non-reduced limbs (n+k written through the exported field S). After each call the receiver is worked on and every argument must still encode as before; fresh-result cases and loops over all serialisers also run as 16 simultaneous instances. non-trivial = all; distinct by the whole case.",
 		NewCase:  func() any { return &c15Case{} },
 		Generate: c15Generate,
 		Run:      c15Run,
